@@ -611,49 +611,76 @@ def run(chk, prog):
     # ---- R6: class invariant behind the loops bounded by nFreqs(): Impedance::_nfreqs == _data.size() ---------------------------------
     # constructors establish it (R1/R4 lemmas); it survives only if nothing changes the length of _data afterwards.  Every member that can
     # (swap, assignment of the sample vector, resize, ...; directly or through another member) must have no caller outside the class.
-    SIZE_CHANGING = {"swap", "resize", "assign", "push_back", "emplace_back", "clear", "insert", "erase", "pop_back", "shrink_to_fit"}
+    from .common import length_changing_members, external_callers
     imp_cls = {"vfps::Impedance"} | prog.subclasses("vfps::Impedance")
-    meths = [fq for fq in prog.functions.values() if fq.get("class") in imp_cls and fq.get("body") and fq.get("kind") not in ("ctor", "dtor")]
-    changing = {}
-    for fq in meths:
-        for x in A.walk(fq["body"]):
-            if x.get("k") == "CXXMemberCallExpr" and (x.get("callee") or "").split("::")[-1] in SIZE_CHANGING and A.member_name(A.call_object(x)) == "_data":
-                changing.setdefault(fq["sig"], "%s on _data (line %d)" % (x["callee"].split("::")[-1], x["line"]))
-            if x.get("k") == "CallExpr" and (x.get("callee") or "") in ("std::swap", "swap") and any(A.member_name(a_) == "_data" for a_ in x.get("args", [])):
-                changing.setdefault(fq["sig"], "std::swap of _data (line %d)" % x["line"])
-            if x.get("k") in ("CXXOperatorCallExpr", "BinaryOperator") and x.get("op") == "=":
-                lhs_ = (x.get("args") or x.get("c"))[0]
-                if A.member_name(lhs_) == "_data" and "vector" in (A.strip(lhs_).get("ctype") or ""):
-                    changing.setdefault(fq["sig"], "assignment to _data (line %d)" % x["line"])
-    grew = True
-    while grew:
-        grew = False
-        for fq in meths:
-            if fq["sig"] in changing:
-                continue
-            for x in A.walk(fq["body"]):
-                if x.get("callee_sig") in changing:
-                    changing[fq["sig"]] = "calls %s" % x["callee"].split("::")[-1]
-                    grew = True
-                    break
+    changing_all = length_changing_members(prog, imp_cls, "_data")
+    # a member that can only make the vector longer keeps _nfreqs <= _data.size(): loops bounded by nFreqs() stay inside (that the
+    # number of samples is then no longer the requested one is C16's business, not a memory error)
+    changing = {sig: why for sig, (why, grow_only) in changing_all.items() if not grow_only}
+    chk.tables["impedance_members_that_only_grow_the_samples"] = sorted(prog.functions[s_]["qname"] for s_, (w_, g_) in changing_all.items() if g_)
     n6 = 0
     for sig, why in sorted(changing.items()):
         fq = prog.functions[sig]
         chk.used(fq)
-        sites = []
-        for g_ in prog.functions.values():
-            if g_.get("class") in imp_cls or not (g_.get("body") or g_.get("inits")):
-                continue
-            roots = ([g_["body"]] if g_.get("body") else []) + [i_["expr"] for i_ in g_.get("inits", []) if isinstance(i_.get("expr"), dict)]
-            for r_ in roots:
-                for x in A.walk(r_):
-                    if x.get("callee_sig") == sig:
-                        sites.append(A.loc(g_, x))
+        sites = external_callers(prog, sig, imp_cls)
         n6 += 1
         chk.check(not sites, "R6", sites[0] if sites else fq.where,
                   "%s can change the number of samples without changing nFreqs() (%s): it has no caller outside the class%s"
                   % (fq["qname"].replace("vfps::", ""), why, "" if not sites else " -- called at %s; afterwards loops bounded by nFreqs() over- or under-run the samples" % sites),
                   "%s:length-changing-member-called" % fq["qname"].replace("vfps::", ""))
     chk.floor("R6-length-changing-members", n6, 2)
+    # ---- R8: the number of bunches the grids are sized for is the length of the filling they are built with -------------------------------------
+    # PhaseSpace::setSize(n, b) fixes the static bunch count every per-bunch loop runs to; the constructor copies its `filling` argument
+    # into _filling_set, which those loops subscript.  At every place that sizes the grids, b must be the size of the very vector handed to
+    # the constructions that follow in that function (directly `v.size()`, or a local defined as that).
+    def vec_whose_size(fn, e, depth=0):
+        e = A.strip(e)
+        if e.get("k") == "CXXMemberCallExpr" and (e.get("callee") or "").endswith("::size"):
+            d_ = A.declref(A.call_object(e))
+            return d_["decl"] if d_ is not None else None
+        d_ = A.declref(e)
+        if d_ is not None and depth < 3:
+            for st in A.walk(fn["body"]):
+                if st.get("k") == "DeclStmt":
+                    for dd in st.get("decls", []):
+                        if dd.get("decl") == d_.get("decl") and dd.get("is_const") and isinstance(dd.get("init"), dict):
+                            return vec_whose_size(fn, dd["init"], depth + 1)
+        return None
+    fill_pos = {len(c_["params"]): [p_["name"] for p_ in c_["params"]].index("filling") for c_ in prog.fns("vfps::PhaseSpace::PhaseSpace")
+                if "filling" in [p_["name"] for p_ in c_["params"]]}
+    A.require(fill_pos, "PhaseSpace constructors with a `filling` parameter not found")
+    n8 = 0
+    for fq in prog.functions.values():
+        if not fq.get("body"):
+            continue
+        sizers = [x for x in A.walk(fq["body"]) if x.get("callee") == "vfps::PhaseSpace::setSize" and len(x.get("args", [])) == 2]
+        if not sizers:
+            continue
+        chk.used(fq)
+        builds = []
+        for x in A.walk(fq["body"]):
+            args = None
+            if x.get("k") == "CXXNewExpr" and (x.get("alloc_type") or "").endswith("PhaseSpace") and isinstance(x.get("init"), dict):
+                ce = A.strip(x["init"], casts=False)
+                if ce.get("k") == "CXXConstructExpr" and "filling" in (ce.get("callee_params") or []):
+                    args = (ce["args"], ce["callee_params"].index("filling"))
+            elif x.get("k") == "CallExpr" and (x.get("callee") or "") in ("std::make_unique", "std::make_shared") and "PhaseSpace>" in (x.get("ctype") or "") and \
+                    "vfps::PhaseSpace" in (x.get("callee_sig") or ""):
+                cand = {pos for n_, pos in fill_pos.items() if pos < len(x["args"]) and "std::vector<" in (A.strip(x["args"][pos]).get("ctype") or "")}
+                if len(cand) == 1 and len(x["args"]) > 4:
+                    args = (x["args"], cand.pop())
+            if args is not None and args[1] < len(args[0]) and args[0][args[1]].get("k") != "CXXDefaultArgExpr":
+                builds.append((x, args[0][args[1]]))
+        for sz in sizers:
+            vb = vec_whose_size(fq, sz["args"][1])
+            later = [(x, a_) for x, a_ in builds if x["id"] > sz["id"]]
+            for x, a_ in later:
+                da = A.declref(a_)
+                n8 += 1
+                chk.check(vb is not None and da is not None and da["decl"] == vb, "R8", A.loc(fq, sz),
+                          "%s: the grids are sized for `%s` bunches and the phase space built at line %d takes the filling `%s`: the count is that vector's size"
+                          % (fq["qname"].replace("vfps::", ""), A.show(sz["args"][1])[:40], x["line"], A.show(a_)[:30]),
+                          "%s:setSize-vs-filling:%s" % (fq["qname"].replace("vfps::", ""), A.show(a_)[:30].replace(" ", "")))
+    chk.floor("R8-sized-constructions", n8, 3)
     chk.notes.append("C17: %d bounds obligations on the work arrays (symbolic max index vs. allocation extent), stream-extraction discipline, definite assignment "
                      "of scalar locals over all functions, foreign-container subscripts, guarded integer division. NOT decided: UB-freedom in general, libraries." % n1)
